@@ -1290,7 +1290,8 @@ impl Traceable for JsObject {
                         // Trace the result promise
                         visitor(state.result_promise.copy_ref());
                     }
-                    JsFunction::PromiseAllSettledSettle { state, .. } => {
+                    JsFunction::PromiseAllSettledSettle { state, .. }
+                    | JsFunction::PromiseAnySettle { state, .. } => {
                         // Trace the result promise and the outcome records collected so far
                         visitor(state.result_promise.copy_ref());
                         for result in state.results.borrow().iter() {
@@ -3167,6 +3168,14 @@ pub enum JsFunction {
         /// true = on_fulfilled handler, false = on_rejected handler
         is_fulfill: bool,
     },
+    /// Promise.any handler for one pending input (first fulfillment wins; rejections are
+    /// collected at `index` until every input has rejected)
+    PromiseAnySettle {
+        state: Rc<PromiseAllSharedState>,
+        index: usize,
+        /// true = on_fulfilled handler, false = on_rejected handler
+        is_fulfill: bool,
+    },
     /// Auto-accessor getter (metadata stored in object properties)
     AccessorGetter,
     /// Auto-accessor setter (metadata stored in object properties)
@@ -3245,6 +3254,7 @@ impl JsFunction {
             JsFunction::PromiseAllReject(_) => Some("promiseAllReject"),
             JsFunction::PromiseRaceSettle { .. } => Some("promiseRaceSettle"),
             JsFunction::PromiseAllSettledSettle { .. } => Some("promiseAllSettledSettle"),
+            JsFunction::PromiseAnySettle { .. } => Some("promiseAnySettle"),
             JsFunction::AccessorGetter => Some("get"),
             JsFunction::AccessorSetter => Some("set"),
             JsFunction::ModuleExportGetter { .. } => Some("get"),
